@@ -235,7 +235,7 @@ items = []
 def top_doc_lines(doc):
     return "".join("/// %s\n" % l if l else "///\n" for l in doc.split("\n"))
 
-MODES = ["parser", "options", "command", "command_named", "options_version", "options_usage", "options_fallback_usage", "boxed", "options_doc3", "parser_doc", "options_descr_doc", "command_doc3"]
+MODES = ["parser", "options", "command", "command_named", "options_version", "options_usage", "options_fallback_usage", "boxed", "options_doc3", "parser_doc", "options_descr_doc", "command_doc3", "options_doc_indented", "command_doc_indented"]
 
 def emit_struct(i, fields, mode, tuple_struct=False):
     it = Item()
@@ -288,6 +288,17 @@ def emit_struct(i, fields, mode, tuple_struct=False):
         wrap = "command"
         top_doc = "command description\n\n\ncommand header\n\n\ncommand footer"
         manual_tail = '.to_options().descr("command description").header("command header").footer("command footer").command("t%d")' % i
+    elif mode == "options_doc_indented":
+        # blocks whose first line is indented (a usage or example line) keep the indentation
+        top_attr = ["options"]
+        wrap = "options"
+        top_doc = "the description\n\n\n  tool [-v] FILE...\nis the only form\n\n\n    tool -v a b\nruns verbosely"
+        manual_tail = '.to_options().descr("the description").header("  tool [-v] FILE...\\nis the only form").footer("    tool -v a b\\nruns verbosely")'
+    elif mode == "command_doc_indented":
+        top_attr = ["command"]
+        wrap = "command"
+        top_doc = "command description\n\n\n  run [--fast]\nnothing else"
+        manual_tail = '.to_options().descr("command description").header("  run [--fast]\\nnothing else").command("t%d")' % i
     elif mode == "parser_doc":
         top_doc = "group title"
         manual_tail = '.group_help("group title")'
@@ -339,7 +350,7 @@ def alphabet_for(fields, mode, i):
             if "argument" in m:
                 a.append("--%s=7" % l)
                 a.append("--%s=x" % l)
-    if mode in ("command", "command_doc3"):
+    if mode in ("command", "command_doc3", "command_doc_indented"):
         a.append("t%d" % i)
     if mode == "command_named":
         a += ["renamed", "r"]
